@@ -1,6 +1,7 @@
 package main
 
 import (
+	"go/types"
 	"sort"
 )
 
@@ -204,7 +205,31 @@ func (tr *Tr) storeLeaves(st *State, ls []leaf, reg, off *Term, v Val) {
 
 // fresh region from the allocation counter. Regions at or above the counter have never been written, so they read
 // as zero in every heap ("unallocated memory is zero" — an invariant of every state, instantiated here for the new region).
-func (tr *Tr) allocRegion(st *State) *Term {
+func (tr *Tr) allocRegion(st *State) *Term { return tr.allocTyped(st, nil) }
+
+// typeTag: ghost type tag of a region (the type it was allocated with).
+func typeTag(t types.Type) uint64 { return strHash("rtype:"+types.TypeString(t, nil)) | 1 }
+
+func (tr *Tr) rtype(reg *Term) *Term { return tr.f.App("rtype", S64, reg) }
+
+// allocTyped allocates a region and records the type it was allocated with (regions are typed: an object allocated as T
+// is never also a backing array or an object of another type).
+func (tr *Tr) allocTyped(st *State, t types.Type) *Term {
+	a := tr.allocRegion0(st)
+	if t != nil {
+		// guarded by the path condition: exclusive paths reuse the same region numbers for different objects
+		g := tr.f.True()
+		if len(tr.frames) > 0 {
+			if fr := tr.fr(); fr.cur != nil {
+				g = fr.reach[fr.cur]
+			}
+		}
+		tr.assumes = append(tr.assumes, Assumption{T: tr.f.Implies(g, tr.f.Eq(tr.rtype(a), tr.f.BVu(64, typeTag(t)))), Why: "allocation type of a fresh region"})
+	}
+	return a
+}
+
+func (tr *Tr) allocRegion0(st *State) *Term {
 	a := tr.get(st, "alloc")
 	tr.nonNil[a.id] = true
 	if base, _ := splitAdd(a); base != nil && base.Op == "var" {
